@@ -256,6 +256,17 @@ pub fn structural_probes() -> Vec<Probe> {
         let twin = format!("{PRELUDE}\nfn need<'gc, T: Collect<'gc>>() {{}}\nfn probe<'gc>() {{ need::<'gc, Option<Gc<'gc, i32>>>(); need::<'gc, std::cell::Cell<i32>>(); need::<'gc, &'static i32>(); }}\nfn main() {{}}\n");
         v.push(Probe { name: format!("static_only_{}", v.len()), class: format!("static-only-Collect|{n}"), negative: neg, twin });
     }
+    // the static_collect! macro must not produce an impl usable with a branded (non-'static) type
+    let sc: [(&str, &str, &str, &str); 3] = [
+        ("generic arm naming the macro's own 'gc", "struct B<'a, T>(&'a T);\nstatic_collect!(<T> B<'gc, T>);", "B<'gc, std::cell::Cell<u8>>", "struct B<'a, T>(&'a T);\nstatic_collect!(<T> B<'static, T>);\nfn ok<'gc>() { need::<'gc, B<'static, u8>>(); }"),
+        ("plain arm naming the macro's own 'gc", "struct B<'a>(&'a u8);\nstatic_collect!(B<'gc>);", "B<'gc>", "struct B<'a>(&'a u8);\nstatic_collect!(B<'static>);\nfn ok<'gc>() { need::<'gc, B<'static>>(); }"),
+        ("generic arm with a non-'static type argument", "struct B<T>(T);\nstatic_collect!(<T> B<T>);", "B<Gc<'gc, u8>>", "struct B<T>(T);\nstatic_collect!(<T> B<T>);\nfn ok<'gc>() { need::<'gc, B<String>>(); }"),
+    ];
+    for (n, items, ty, twin_items) in sc {
+        let neg = format!("{PRELUDE}\nuse gc_arena::static_collect;\nfn need<'gc, T: Collect<'gc>>() {{}}\n{items}\nfn probe<'gc>() {{ need::<'gc, {ty}>(); }}\nfn main() {{}}\n");
+        let twin = format!("{PRELUDE}\nuse gc_arena::static_collect;\nfn need<'gc, T: Collect<'gc>>() {{}}\n{twin_items}\nfn main() {{}}\n");
+        v.push(Probe { name: format!("static_collect_{}", v.len()), class: format!("static_collect-macro|{n}"), negative: neg, twin });
+    }
     // type parameters a provided Collect impl does not trace (hashers) must be 'static: a branded
     // reference parked there would be stored in the heap without ever being traced
     let untraced: [(&str, &str, &str); 7] = [
